@@ -617,6 +617,12 @@ class FileSystemSink(DataSink):
             # adding python STIX object
             self._check_path_and_write(stix_data, pretty=pretty)
 
+        elif isinstance(stix_data, dict) and stix_data.get("type") == "bundle":
+            # Like the memory sink: each object of a bundle dictionary is added
+            # on its own, so that a named version reaches it.
+            for stix_obj in stix_data.get("objects", []):
+                self.add(stix_obj, version=version, pretty=pretty)
+
         elif isinstance(stix_data, (str, dict)):
             parsed_data = parse(stix_data, allow_custom=self.allow_custom, version=version)
             if isinstance(parsed_data, _STIXBase):
